@@ -17,7 +17,7 @@ import time
 
 wt, k, sid, prop = sys.argv[1:5]
 checks = sys.argv[5:] or [prop]
-sd = os.path.join(wt, "_seeded")
+sd = os.path.join(wt, os.environ.get("SEED_DIR", "_seeded"))
 patch = os.path.join(sd, "patch%s.diff" % k)
 demo = os.path.join(sd, "demo%s.py" % k)
 notes = os.path.join(sd, "notes%s.md" % k)
